@@ -28,6 +28,13 @@ def gen_cases(tier, seed):
         base = {"nodes": nodes, "edges": edges, "flow": dict(zip(edges, fl)), "planted": [], "wt": "int", "mode": "edge"}
         cases.append({"cyc": False, "mode": "edge", "wt": "int", "kdelta": 0, "knone": False, "ignore": [], "scale": [], "starts": [], "ends": [], "superset": None,
                       "plr": [[[0, 3], [4, 60]], [1.0, 0.5]], "spec": I.spec_of(base)})
+    # ... by factors below 1/2 (the integer slack then needs more bits than its scaled value)
+    for fl in ([1, 9], [2, 2, 7], [5, 0, 0], [4, 10]):
+        nodes = [str(i) for i in range(len(fl) + 1)]; edges = list(zip(nodes, nodes[1:]))
+        base = {"nodes": nodes, "edges": edges, "flow": dict(zip(edges, fl)), "planted": [], "wt": "int", "mode": "edge"}
+        for plr_ in ([[[0, 10]], [0.25]], [[[0, 3], [4, 60]], [1.0, 0.25]], [[[0, 60]], [0.1]], [[[0, 1], [2, 100]], [0, 0.25]]):
+            cases.append({"cyc": False, "mode": "edge", "wt": "int", "kdelta": 0, "knone": False, "ignore": [], "scale": [], "starts": [], "ends": [], "superset": None,
+                          "plr": plr_, "spec": I.spec_of(base)})
     # ... and scaled UP by a factor > 1 (the ranges and factors of the class docstring's own example)
     for fl in ([3, 0], [1, 0], [1, 0, 1], [5, 2, 0, 4]):
         nodes = [str(i) for i in range(len(fl) + 1)]; edges = list(zip(nodes, nodes[1:]))
@@ -115,7 +122,8 @@ def gen_cases(tier, seed):
                 mx = max(base["flow"].values()) or 1
                 c["superset"] = [(mx + rng.choice([1, 2])) if wt == "int" else float(mx + 0.5)] * rng.randint(1, 3)
         if not cyc and wt == "int" and rng.random() < 0.15 and c["superset"] is None and not node:
-            c["plr"] = rng.choice([[[[0, 3], [4, 60]], [1.0, 0.5]], [[[0, 3], [4, 60]], [1.6, 1.0]], [[[0, 2], [3, 4], [5, 60]], [1.0, 1.7, 0.5]]])
+            c["plr"] = rng.choice([[[[0, 3], [4, 60]], [1.0, 0.5]], [[[0, 3], [4, 60]], [1.6, 1.0]], [[[0, 2], [3, 4], [5, 60]], [1.0, 1.7, 0.5]],
+                                   [[[0, 60]], [0.25]], [[[0, 3], [4, 60]], [0.4, 0.3]], [[[0, 3], [4, 60]], [0.2, 1.0]]])
         drop = [e for e in [models._elem(x) for x in c["ignore"]] if rng.random() < 0.3]
         c["spec"] = I.spec_of(base, drop_attr=drop)
         cases.append(c)
